@@ -800,21 +800,21 @@ template <typename Char, typename Traits>
 [[nodiscard]] constexpr auto
 operator<(basic_string_view<Char, Traits> lhs, basic_string_view<Char, Traits> rhs) noexcept -> bool
 {
-    return lexicographical_compare(lhs.begin(), lhs.end(), rhs.begin(), rhs.end());
+    return lhs.compare(rhs) < 0;
 }
 
 template <typename Char, typename Traits, int = 1>
 [[nodiscard]] constexpr auto
 operator<(type_identity_t<basic_string_view<Char, Traits>> lhs, basic_string_view<Char, Traits> rhs) noexcept -> bool
 {
-    return lexicographical_compare(lhs.begin(), lhs.end(), rhs.begin(), rhs.end());
+    return lhs.compare(rhs) < 0;
 }
 
 template <typename Char, typename Traits, int = 2>
 [[nodiscard]] constexpr auto
 operator<(basic_string_view<Char, Traits> lhs, type_identity_t<basic_string_view<Char, Traits>> rhs) noexcept -> bool
 {
-    return lexicographical_compare(lhs.begin(), lhs.end(), rhs.begin(), rhs.end());
+    return lhs.compare(rhs) < 0;
 }
 
 /// \brief Compares two views. All comparisons are done via the compare() member
